@@ -19,11 +19,11 @@ ASSUMPTIONS = ['reference operations in vf/shadow.py (textbook de Bruijn) are th
                'id recycling is probabilistic: evidence counter churn_comparisons says how many were tried']
 REQUIRED = {'quick': {'eq_checks': 5000, 'hash_checks': 2000, 'op:subst': 500, 'op:subst_type': 500, 'op:subst_bound': 500,
                       'op:beta_norm': 500, 'op:abstract_over': 500, 'op:incr_boundvars': 300, 'sem_checks': 300,
-                      'churn_comparisons': 100000, 'order_triples': 1000, 'type_ops': 1000, 'shared_open_object_two_depths': 120},
+                      'churn_comparisons': 100000, 'order_triples': 1000, 'type_ops': 1000, 'shared_open_object_two_depths': 120, 'shared_object_abstracted_at_two_depths': 300},
             'thorough': {'eq_checks': 100000, 'hash_checks': 40000, 'op:subst': 10000, 'op:subst_type': 10000,
                          'op:subst_bound': 10000, 'op:beta_norm': 10000, 'op:abstract_over': 10000,
                          'op:incr_boundvars': 6000, 'sem_checks': 6000, 'churn_comparisons': 3000000,
-                         'order_triples': 20000, 'type_ops': 20000, 'shared_open_object_two_depths': 6000}}
+                         'order_triples': 20000, 'type_ops': 20000, 'shared_open_object_two_depths': 6000, 'shared_object_abstracted_at_two_depths': 6000}}
 
 
 def shards(tier, seed):
@@ -329,6 +329,37 @@ def one_round(ctx, rng):
             ctx.count('op_rejected:abstract_over')
         except Exception as e:
             ctx.count('op_raised:abstract_over:' + type(e).__name__)
+    # ---- B5b. the abstracted variable inside ONE object that occurs at two binder depths
+    try:
+        from kernel.term import Abs as RAbs, Comb as RComb
+        vT = g.rand_type()
+        v = ('var', 'vshared', vT)
+        g3 = mk_gen(rng)
+        g3.ctx = [v]
+        g3.p_fresh = 0.05
+        sub_s = g3.gen(S.BOOL, rng.choice([1, 2]))
+        if v in S.atoms(sub_s) and sub_s[0] == 'comb':
+            sub_t = S.to_repo_term(sub_s, {})
+            A3 = g.rand_type()
+            conn = ('const', rng.choice(['conj', 'disj', 'implies']), S.funs(S.BOOL, S.BOOL, S.BOOL))
+            allc = ('const', 'all', S.fun(S.fun(A3, S.BOOL), S.BOOL))
+            inner_s = ('comb', allc, ('abs', 'y', A3, sub_s))
+            order = rng.random() < 0.5
+            whole_s = S.mk_comb(conn, sub_s, inner_s) if order else S.mk_comb(conn, inner_s, sub_s)
+            inner_t = RComb(S.to_repo_term(allc), RAbs('y', S.to_repo_type(A3), sub_t))
+            whole_t = S.to_repo_term(conn)(sub_t, inner_t) if order else S.to_repo_term(conn)(inner_t, sub_t)
+            vt = S.to_repo_term(v)
+            r = whole_t.abstract_over(vt)
+            compare_result(ctx, 'abstract_over', r, S.abstract(whole_s, v), None,
+                           {'op': 'abstract_over-shared', 't': S.jsonable(whole_s), 'v': S.jsonable(v), 'order': order}, rng)
+            r2 = Lambda(vt, whole_t)
+            compare_result(ctx, 'Lambda', r2, ('abs', v[1], v[2], S.abstract(whole_s, v)), S.fun(vT, S.BOOL) if closed_typed(whole_s) else None,
+                           {'op': 'Lambda-shared', 't': S.jsonable(whole_s), 'v': S.jsonable(v)}, rng)
+            ctx.count('shared_object_abstracted_at_two_depths')
+    except S.ShadowError:
+        pass
+    except Exception as e:
+        ctx.count('op_raised:abstract_over_shared:' + type(e).__name__)
     # ---- B6. incr_boundvars on an open term
     so = g.gen(T, 2, (A, A))
     inc = rng.choice([1, 2, 3])
